@@ -225,10 +225,14 @@ theorem inputOk_sound (vm : VarMap) (root : Term) (c : Clause) (h : inputOk vm r
     · rename_i p hp
       have hag := falsify_agrees vm I hI c p hp hc
       simp only [Bool.or_eq_true, beq_iff_eq, List.any_eq_true] at h
-      rcases h with h | ⟨e, he, h⟩
+      rcases h with (h | ⟨e, he, h⟩) | ⟨e, he, h⟩
       · have := eval3_sound I p hag root false h
         simp [evalB, this, Val.toBool] at hr
       · have h1 := struct3_sound I p hag e.1 (!e.2) h
+        have h2 := hag e he
+        rw [h1] at h2
+        cases hh : e.2 <;> simp [hh] at h2
+      · have h1 := get_sound hag h
         have h2 := hag e he
         rw [h1] at h2
         cases hh : e.2 <;> simp [hh] at h2
